@@ -93,6 +93,59 @@ func checkC13(c *Ctx) {
 		c.Check(k == kBlockView+v+")", "C13.1", shortName(w.Fn)+": blockAtHeight[b.View()] = b", p.InstrPos(mu), "indexed by the block's own view", "blockAtHeight["+k+"] = "+v)
 	}
 	c13Senders(c)
+	// C13.10 a block that was fetched successfully is kept: every path from a successful RequestBlock to a return of Get
+	// stores the block under the requested hash. (The prune walk and the rules' look-ups follow parent links through the
+	// local table: a fetched ancestor that is handed out but not kept leaves a hole in the committed chain, and everything
+	// below it is reported as abandoned.)
+	if get := p.Method("security/blockchain", "Blockchain", "Get"); get != nil {
+		fl := NewFlow(p, get)
+		nReq := 0
+		for _, d := range deepInstrs(fl, func(in ssa.Instruction) bool {
+			call, ok := in.(*ssa.Call)
+			return ok && call.Call.IsInvoke() && call.Call.Method.Name() == "RequestBlock"
+		}, 0) {
+			if len(d.Path) > 0 {
+				continue // requested from a private helper: the store is looked for where the request is made
+			}
+			call := d.Instr.(*ssa.Call)
+			nReq++
+			rk := fl.K.Key(call)
+			isStore := func(in ssa.Instruction) bool {
+				mu, ok := in.(*ssa.MapUpdate)
+				if !ok {
+					return false
+				}
+				return strings.HasSuffix(fl.K.Key(mu.Map), kBC+"blocks") && fl.K.Key(mu.Value) == rk+"#0"
+			}
+			// (in a private helper the store is recognised by the table it writes; its operands are the helper's)
+			isStoreAny := func(in ssa.Instruction) bool {
+				mu, ok := in.(*ssa.MapUpdate)
+				if !ok {
+					return false
+				}
+				ld, ok := mu.Map.(*ssa.UnOp)
+				if !ok {
+					return false
+				}
+				fa, ok := ld.X.(*ssa.FieldAddr)
+				return ok && fieldName(fa.X.Type(), fa.Field) == kBC+"blocks"
+			}
+			w := cfgSearch(fl, call, nil, isReturn, func(in ssa.Instruction) bool { return isStore(in) || helperAlways(in, isStoreAny, 0) }, func(fs []Fact) bool {
+				for _, f := range fs {
+					if f.Op == "false" && f.L == rk+"#1" {
+						return true
+					}
+				}
+				return false
+			})
+			c.Check(w == nil, "C13.10", "Get: a successfully fetched block is kept in the block table", p.InstrPos(call),
+				"every path from a successful RequestBlock to a return stores the fetched block in blocks",
+				"Get can return at "+posOf(p, w)+" after a successful fetch without storing the block: the caller sees it, the local parent-link walks (pruning, later look-ups) do not")
+		}
+		if nReq == 0 {
+			c.Exempt("C13.10", "Get: a successfully fetched block is kept in the block table", p.FuncPos(get), "the fetch is made in a private helper; the store of the fetched block is judged by C13.1 in the helper's terms")
+		}
+	}
 
 	// C13.3 lock discipline
 	c.checkGuard("C13.3", guards["Blockchain"])
